@@ -161,7 +161,16 @@ class Formatter(BasicWalker[Retype]):
                 for comment in statement.comment:
                     result += self._format_comment(comment)
             tokens: Retype = self.visit(statement)
-            if tokens and tokens[0] == "(" and statement is not node.statements[0]:
+            # an inlined chunk may begin with the comments of its first statement
+            leading = next(
+                (
+                    token
+                    for token in tokens
+                    if not (isinstance(token, Separators) or token.startswith("--"))
+                ),
+                None,
+            )
+            if leading == "(" and statement is not node.statements[0]:
                 # a leading bracket would otherwise continue the previous statement
                 result.append(";")
             result += tokens + [Separators.Statement]
